@@ -258,6 +258,8 @@ class Gen:
         self.class_ids.append(node["id"])
         self.shareable.append(node["id"])
         self.specs_by_id[node["id"]] = node
+        if "default" in node["kw"] and rng.random() < 0.3:
+            node["default_in_body"] = True
         return node
 
     def spec(self, depth=None):
@@ -407,6 +409,9 @@ def _build_class(spec, memo, sut):
     for name, pspec in spec.get("props", {}).items():
         classdict[name] = _build_prop(pspec, memo, sut)
     kwargs = {key: _build_kw(key, val, memo, sut) for key, val in spec.get("kw", {}).items()}
+    if spec.get("default_in_body") and "default" in kwargs:
+        # the other documented spelling: `class Foo(Object): default = {...}` (a class variable)
+        classdict["default"] = kwargs.pop("default")
     return sut.ObjectMeta(spec["name"], bases, classdict, **kwargs)
 
 
